@@ -12,8 +12,10 @@
   observed only.
 -/
 import GitAiModel.Lemmas.Wrapper
+import GitAiModel.Lemmas.WrapperExit
 import GitAiModel.Lemmas.Cli
 import GitAiModel.Extracted.WrapperTables
+import GitAiModel.Extracted.WrapperExitTables
 import GitAiModel.Base.Chars
 namespace GitAi.C06
 open GitAi GitAi.Wrapper GitAi.Cli
@@ -63,6 +65,19 @@ example : callOk [chars% "-C", chars% "/r", chars% "--no-pager", chars% "notes",
     chars% "-f", chars% "-F", chars% "-", chars% "abc"] [] = false := by decide   -- hooks not disabled
 example : callOk [chars% "-c", chars% "core.hooksPath=/dev/null", chars% "-C", chars% "/r", chars% "--no-pager",
     chars% "notes", chars% "--ref=ai", chars% "add", chars% "-f", chars% "-F", chars% "-", chars% "abc"] [] = true := by decide
+
+/-- git uses the LAST `-c core.hooksPath=`: the user's own `-c core.hooksPath=<dir>` travels with the repository's global
+    args into every internal call, so the null override counts only when nothing after it overrides it again. The second
+    argv is what `args_with_disabled_hooks_if_needed` produced before the fix ("an override is already there"): the user's
+    reference-transaction hook ran on git-ai's own `notes --ref=ai add`. -/
+example : callOk [chars% "-c", chars% "core.hooksPath=/u/hooks", chars% "--no-pager", chars% "-c", chars% "core.hooksPath=/dev/null",
+    chars% "notes", chars% "--ref=ai", chars% "add", chars% "-f", chars% "-F", chars% "-", chars% "abc"] [] = true := by decide
+example : callOk [chars% "-c", chars% "core.hooksPath=/u/hooks", chars% "--no-pager",
+    chars% "notes", chars% "--ref=ai", chars% "add", chars% "-f", chars% "-F", chars% "-", chars% "abc"] [] = false := by decide
+example : callOk [chars% "-c", chars% "core.hooksPath=/dev/null", chars% "-c", chars% "core.hooksPath=/u/hooks", chars% "--no-pager",
+    chars% "notes", chars% "--ref=ai", chars% "add", chars% "-f", chars% "-F", chars% "-", chars% "abc"] [] = false := by decide
+example : literalHooksOff [.lit (chars% "-c"), .lit (chars% "core.hooksPath=/dev/null"), .globals, .lit (chars% "notes")] = false := by decide
+example : literalHooksOff [.globals, .lit (chars% "-c"), .lit (chars% "core.hooksPath=/dev/null"), .lit (chars% "fetch"), .unknown] = true := by decide
 
 /-! ## 2. Argv identity (from C18) -/
 
@@ -405,6 +420,151 @@ theorem witness_post_exit_overrides_status :
     (tightKernel.G [chars% "frobnicate"] [] w0).status = 1 ∧
     (run tightKernel overrideHooks [chars% "frobnicate"] w0 []).status = 0 := by decide
 
+
+/-! ## 6. Exit mirroring: the wrapper ends the way the child ended (`exit_with_status`)
+
+  `run` above hands the child's status through unchanged (`o.status = g.status`, status = exit code or 128 + signal).
+  That step is `exit_with_status`; here it is a theorem over the statements EXTRACTED from its source
+  (`WrapperExitTables.exitSpec`), with the process' signal dispositions as state. -/
+section ExitMirroring
+open GitAi.Wrapper.Exit
+
+/-- the shape facts of `exit_with_status` / the forwarding handlers the theorems below rest on (extracted now). -/
+theorem exit_shape_holds :
+    WrapperExitTables.exitSpec.raisesDying = true ∧ WrapperExitTables.exitSpec.thenUnreachable = true ∧
+    WrapperExitTables.exitSpec.elseExitsCode = true ∧ Reset.dying ∈ WrapperExitTables.exitSpec.resets ∧
+    WrapperExitTables.exitSpec.otherSignalSites = 0 ∧
+    (∀ s ∈ WrapperExitTables.exitSpec.forwarded, s ∈ WrapperExitTables.exitSpec.uninstalled) := by
+  decide
+
+/-- **C06 death by signal is mirrored.** For every signal that can kill the child (default action terminate or core
+    dump: HUP INT QUIT ILL TRAP ABRT BUS FPE KILL USR1 SEGV USR2 PIPE ALRM TERM … and the real-time signals), whatever
+    dispositions the wrapper inherited and whether or not it installed its forwarding handlers, the wrapper dies by the
+    same signal — in particular for SIGPIPE, which the Rust runtime ignores, and SIGSEGV/SIGBUS, which it handles. -/
+theorem signal_death_mirrored (sig : Signal) (hk : canKill sig = true) (inh : Disps) (setpgid : Bool) :
+    exitWithStatus WrapperExitTables.exitSpec (.signaled sig) (atExit WrapperExitTables.exitSpec inh setpgid)
+      = .signaled sig :=
+  mirrored_of_dying _ sig _ hk exit_shape_holds.1 exit_shape_holds.2.2.2.1
+
+/-- an exit code is passed on as it is. -/
+theorem exit_code_mirrored (c : Nat) (d : Disps) :
+    exitWithStatus WrapperExitTables.exitSpec (.exited c) d = .exited c := by
+  unfold exitWithStatus
+  simp only [exit_shape_holds.2.2.1, if_true]
+
+/-- together: what the wrapper's parent sees is the child's wait status, so the `status` component of
+    Model/Wrapper.lean's `run` (exit code, or 128 + signal) is the child's. -/
+theorem status_mirrored (st : ChildStatus) (hst : ∀ sig, st = .signaled sig → canKill sig = true)
+    (inh : Disps) (setpgid : Bool) :
+    (exitWithStatus WrapperExitTables.exitSpec st (atExit WrapperExitTables.exitSpec inh setpgid)).encode = st.encode := by
+  cases st with
+  | exited c => rw [exit_code_mirrored]; rfl
+  | signaled sig => rw [signal_death_mirrored sig (hst sig rfl)]; rfl
+
+/-- non-vacuity: the signals in question can kill; the three the runtime touches are not default when
+    `exit_with_status` starts (so the reset is what makes the raise fatal). -/
+example : canKill sigPIPE = true ∧ canKill sigTERM = true ∧ canKill sigKILL = true ∧ canKill sigSEGV = true ∧
+    canKill 34 = true ∧ canKill 17 = false ∧ canKill sigSTOP = false ∧ canKill 0 = false := by decide
+example : (atExit WrapperExitTables.exitSpec (fun _ => .dfl) true).get sigPIPE = .ign ∧
+    (atExit WrapperExitTables.exitSpec (fun _ => .dfl) true).get sigSEGV = .handler ∧
+    (atExit WrapperExitTables.exitSpec (fun _ => .dfl) true).get sigTERM = .dfl ∧
+    (atExit WrapperExitTables.exitSpec (fun _ => .ign) false).get sigKILL = .dfl := by decide
+
+/-- `exit_with_status` with the four forwarding signals reset instead of the dying one (the body of
+    `uninstall_forwarding_handlers`). -/
+def fixedListSpec : ExitSpec := { WrapperExitTables.exitSpec with resets := [.fixed [sigTERM, sigINT, sigHUP, sigQUIT]] }
+
+/-- **Negation witness: a fixed list {TERM, INT, HUP, QUIT} fails for SIGPIPE** (`git log -p | head -1`): the raise
+    returns, `unreachable!()` panics, exit code 101 instead of "killed by signal 13"; the same for SIGSEGV. TERM and KILL
+    are still mirrored. -/
+theorem witness_fixed_list_fails_sigpipe :
+    exitWithStatus fixedListSpec (.signaled sigPIPE) (atExit fixedListSpec (fun _ => .dfl) true) = .exited 101 ∧
+    exitWithStatus fixedListSpec (.signaled sigPIPE) (atExit fixedListSpec (fun _ => .dfl) false) = .exited 101 ∧
+    exitWithStatus fixedListSpec (.signaled sigSEGV) (atExit fixedListSpec (fun _ => .dfl) true) = .exited 101 ∧
+    exitWithStatus fixedListSpec (.signaled sigTERM) (atExit fixedListSpec (fun _ => .dfl) true) = .signaled sigTERM ∧
+    exitWithStatus fixedListSpec (.signaled sigKILL) (atExit fixedListSpec (fun _ => .dfl) true) = .signaled sigKILL := by
+  decide
+
+/-- **The reset of SIGPIPE is necessary**, for every variant of `exit_with_status` whose forwarding handlers do not
+    touch SIGPIPE and for every inherited disposition: death by SIGPIPE is mirrored exactly when a statement before
+    the raise resets SIGPIPE. -/
+theorem sigpipe_mirrored_iff_reset (spec : ExitSpec) (inh : Disps) (setpgid : Bool)
+    (hf : sigPIPE ∉ spec.forwarded) (hu : sigPIPE ∉ spec.uninstalled) :
+    exitWithStatus spec (.signaled sigPIPE) (atExit spec inh setpgid) = .signaled sigPIPE ↔
+      spec.raisesDying = true ∧ spec.resets.any (Reset.covers sigPIPE) = true := by
+  rw [mirrored_iff spec sigPIPE _ (by decide), sigpipe_ignored_atExit spec inh setpgid hf hu]
+  simp
+
+end ExitMirroring
+
+/-! ## 7. The user's hooks run exactly once and their status reaches git
+
+  One hook event fired by the git the wrapper started, for every command class (`command_uses_managed_hooks` or not),
+  every hook installation state (no git-ai hooks / `git-hooks ensure` on top of a local, a global or no
+  `core.hooksPath`), every event (managed by git-ai or not), every user hook (absent / passes / vetoes), with or
+  without a `-c core.hooksPath=` of the user's own. The decision tables of `handle_git_hook_invocation`,
+  `resolve_child_git_hooks_path_override` and `proxy_to_git` are EXTRACTED (`WrapperExitTables.hookEntry`, `.override`);
+  the list of managed commands is `WrapperTables.managedCommands`. -/
+section UserHooks
+open GitAi.Wrapper.Exit
+
+/-- the whole decision space evaluated over the tables extracted now. -/
+theorem user_hooks_table_ok : userHooksOk WrapperExitTables.hookEntry WrapperExitTables.override = true := by
+  decide
+
+/-- **C06 user hooks (PARTIAL).** For every git command, every hook event and every installation state EXCEPT
+    `git-hooks ensure` over hooks kept in `.git/hooks` (no `core.hooksPath`; `deadDefaultDir`): the user's hook for the
+    event runs exactly as often as under plain git (once if it exists) and its veto reaches git. `rl` / `mf` are
+    `hook_requires_managed_repo_lookup` and a failing `run_managed_hook` (both irrelevant under the wrapper, which sets
+    the skip variable). The full statement (without `hdead`) is FALSE: `witness_default_dir_hooks_dead`. -/
+theorem user_hooks_run_exactly_once_partial (cmd : Str) (loc : UserLoc) (ai : AiHooks) (evManaged : Bool) (user : UserHook)
+    (explicit rl mf : Bool) :
+    let s : Scn := ⟨WrapperTables.managedCommands.contains cmd, loc, ai, evManaged, user, explicit⟩
+    s.deadDefaultDir = false →
+      viaProxy WrapperExitTables.hookEntry WrapperExitTables.override s rl mf = plain s ∧
+      (viaProxy WrapperExitTables.hookEntry WrapperExitTables.override s rl mf).runs = (if user = .none then 0 else 1) ∧
+      ((viaProxy WrapperExitTables.hookEntry WrapperExitTables.override s rl mf).veto = true ↔ user = .veto) := by
+  intro s hdead
+  have h := userHooksOk_sound _ _ user_hooks_table_ok s rl mf hdead
+  rw [h]
+  refine ⟨rfl, ?_, ?_⟩ <;> cases user <;> simp [plain, runUser, s]
+
+/-- **Negation witness for the excluded state** (confirmed on the binary; finding `user-hook-log-differs:ensure-default-hooks-dir`):
+    after `git-ai git-hooks ensure` in a repository whose hooks live in `.git/hooks`, a vetoing user hook does not run —
+    for a managed command (`-c core.hooksPath=<null device>`) as for an unmanaged one (the managed entry has nothing to
+    forward to). -/
+theorem witness_default_dir_hooks_dead :
+    viaProxy WrapperExitTables.hookEntry WrapperExitTables.override ⟨true, .defaultDir, .ensured, true, .veto, false⟩ false false = ⟨0, false⟩ ∧
+    viaProxy WrapperExitTables.hookEntry WrapperExitTables.override ⟨false, .defaultDir, .ensured, true, .veto, false⟩ false false = ⟨0, false⟩ ∧
+    plain ⟨false, .defaultDir, .ensured, true, .veto, false⟩ = ⟨1, true⟩ := by decide
+
+/-- non-vacuity: both command classes occur; in the interesting states the hook really runs through different routes
+    (directly for a managed command, forwarded by the managed entry for an unmanaged one). -/
+example : WrapperTables.managedCommands.contains (chars% "commit") = true ∧
+    WrapperTables.managedCommands.contains (chars% "tag") = false ∧
+    WrapperTables.managedCommands.contains (chars% "update-ref") = false := by decide
+example : effectiveDir WrapperExitTables.override ⟨true, .localPath, .ensured, false, .veto, false⟩ false = .user ∧
+    effectiveDir WrapperExitTables.override ⟨false, .localPath, .ensured, false, .veto, false⟩ false = .managed ∧
+    effectiveDir WrapperExitTables.override ⟨true, .defaultDir, .ensured, true, .ok, false⟩ false = .null ∧
+    effectiveDir WrapperExitTables.override ⟨true, .globalPath, .absent, true, .ok, false⟩ false = .user := by decide
+
+/-- the entry's fast path without the `!forward_hooks_dir_exists` conjunct. -/
+def entryWithoutForwardCheck : HookEntrySpec :=
+  { WrapperExitTables.hookEntry with
+    earlyReturns := [[(.skipAll, true)], [(.skipManaged, true)], [(.noManagedBehavior, true), (.fwdExists, false)]] }
+
+/-- **Negation witness: `if skip_managed_hooks { return 0 }` loses the user's hooks for unmanaged commands.** With a
+    forward target recorded, `git tag` / `git update-ref` (not in `command_uses_managed_hooks`) keep
+    `core.hooksPath=.git/ai/hooks`; forwarding from the managed entry is the only way the user's reference-transaction
+    veto runs. Managed commands are unaffected (the child is pointed at the user's directory). -/
+theorem witness_skip_without_forward_check :
+    userHooksOk entryWithoutForwardCheck WrapperExitTables.override = false ∧
+    viaProxy entryWithoutForwardCheck WrapperExitTables.override ⟨false, .localPath, .ensured, true, .veto, false⟩ false false = ⟨0, false⟩ ∧
+    viaProxy entryWithoutForwardCheck WrapperExitTables.override ⟨true, .localPath, .ensured, true, .veto, false⟩ false false = ⟨1, true⟩ := by
+  decide
+
+end UserHooks
+
 #print axioms inventory_confined
 #print axioms skeleton_holds
 #print axioms child_argv
@@ -416,5 +576,15 @@ theorem witness_post_exit_overrides_status :
 #print axioms demoHooks_wf
 #print axioms witness_unconfined_post_hook
 #print axioms witness_post_exit_overrides_status
+#print axioms exit_shape_holds
+#print axioms signal_death_mirrored
+#print axioms exit_code_mirrored
+#print axioms status_mirrored
+#print axioms witness_fixed_list_fails_sigpipe
+#print axioms sigpipe_mirrored_iff_reset
+#print axioms user_hooks_table_ok
+#print axioms user_hooks_run_exactly_once_partial
+#print axioms witness_default_dir_hooks_dead
+#print axioms witness_skip_without_forward_check
 
 end GitAi.C06
